@@ -190,6 +190,12 @@ func (rn *runner) hread(actor string, rd Read, quiescent bool) *simcore.Violatio
 	for _, o := range out {
 		if o.err != nil {
 			if quiescent && readable {
+				if rn.recoverWhileIndexing {
+					rn.mu.Unlock()
+					v := rn.keyed("historic-read-failed", "indexer-shorten-during-initial-indexing", true, "%s: %s failed although nothing was in flight: %v; a Recover ran during the initial index run, the index entries of the reverted history were left behind and now point into a history of the new branch that does not contain the key", where, o.what, o.err)
+					rn.mu.Lock()
+					return v
+				}
 				return simcore.Violf("historic-read-failed", "%s: %s failed although nothing was in flight: %v", where, o.what, o.err)
 			}
 			rn.probe("historic-read-error-during-mutation")
